@@ -27,7 +27,6 @@ import (
 	"os"
 	"path/filepath"
 	"strconv"
-	"strings"
 	"time"
 
 	"github.com/rs/zerolog"
@@ -151,7 +150,10 @@ func runBinary(c *Ctx, ps []*cborgen.Prog) {
 	defer f.Close()
 	wr := bufio.NewWriter(f)
 	defer wr.Flush()
-	type decCase struct{ term string; j interface{} }
+	type decCase struct {
+		term string
+		j    interface{}
+	}
 	var decs []decCase
 	c.OpenShards(hdrBin, "(tables * (list (list N * cval) * list (list N * cval) * list (list N * cval))) * list N", "mismatches c09_run_event c09_eqb", 80)
 	for i, p := range ps {
@@ -198,19 +200,55 @@ func runBinary(c *Ctx, ps []*cborgen.Prog) {
 	}
 	c.Res.ExtraCoverage["programs"] = len(ps)
 	c.Res.ExtraCoverage["build"] = "binary_log"
-	// outside the generator's range (recorded, not judged): fractional instants far from the epoch lose
-	// more than a microsecond in the float64 seconds of CBOR tag 1
+	// directed: fractional instants on a grid of seconds x nanoseconds, judged against the instant
+	// that was logged ("the same instant within one microsecond"; the JSON build prints it exactly
+	// under TimeFieldFormat = RFC3339Nano).  Far from the epoch the float64 seconds of CBOR tag 1
+	// cannot carry a microsecond (Properties/C08.v, C08_time_far_refuted): those land on the
+	// known-finding key, everything else on decoded-time-differs.
 	probe := map[string]string{}
-	for _, secs := range []int64{1 << 33, 1 << 34, 1 << 38, 253402300000} {
-		w := &capture{}
-		t := time.Unix(secs, 123456789).UTC()
-		lg := zerolog.New(w)
-		lg.Log().Time("t", t).Send()
-		if len(w.bufs) == 1 {
-			dec, _ := decodeReal(w.bufs[0])
-			probe[t.Format(time.RFC3339Nano)] = strings.TrimSpace(string(dec))
+	grid, far := 0, 0
+	for _, secs := range []int64{0, 1, 1700000000, 1<<31 - 1, 1 << 31, 1<<32 + 7, 1<<33 - 1, -1, -1700000000, -(1<<33 - 1), 1 << 33, 1<<33 + 12345, 1 << 34, 1 << 36, 1 << 37, 253402300000, -(1 << 33), -(1 << 35)} {
+		for _, ns := range []int64{1, 999, 1000, 123456789, 500000000, 999999000, 999999999} {
+			w := &capture{}
+			t := time.Unix(secs, ns).UTC()
+			lg := zerolog.New(w)
+			lg.Log().Time("t", t).Send()
+			if len(w.bufs) != 1 {
+				continue
+			}
+			dec, derr := decodeReal(w.bufs[0])
+			var m map[string]string
+			grid++
+			cs := map[string]interface{}{"program": fmt.Sprintf("Log().Time(\"t\", time.Unix(%d, %d).UTC()).Send()", secs, ns), "binary_hex": hex.EncodeToString(w.bufs[0])}
+			if derr != "" || json.Unmarshal(dec, &m) != nil {
+				c.Violate(Violation{Key: "decoded-not-json", Monitor: "time-grid", Desc: "the decoded line of a Time field is not a JSON object of strings: " + derr, Case: cs, Observed: string(dec)})
+				continue
+			}
+			td, err := time.Parse(time.RFC3339Nano, m["t"])
+			if err != nil {
+				c.Violate(Violation{Key: "decoded-time-differs", Monitor: "time-grid", Desc: "the decoded timestamp does not parse: " + err.Error(), Case: cs, Observed: m["t"]})
+				continue
+			}
+			d := td.Sub(t)
+			if d < 0 {
+				d = -d
+			}
+			if d > time.Microsecond {
+				key := "decoded-time-differs"
+				if secs >= 1<<33 || secs <= -(1<<33) {
+					key = "binary-time-float64-precision"
+					far++
+					if len(probe) < 6 {
+						probe[t.Format(time.RFC3339Nano)] = m["t"]
+					}
+				}
+				c.Violate(Violation{Key: key, Monitor: "time-grid", Desc: fmt.Sprintf("Time(\"t\", %s) decodes to %s: %v away from the logged instant (the JSON build with TimeFieldFormat=RFC3339Nano prints the logged instant exactly)", t.Format(time.RFC3339Nano), m["t"], d),
+					Case: cs, Observed: m["t"], Expected: t.Format(time.RFC3339Nano)})
+			}
 		}
 	}
+	c.Res.ExtraCoverage["time_grid_cases"] = grid
+	c.Res.ExtraCoverage["time_grid_beyond_2^33s_off_by_more_than_1us"] = far
 	c.Res.ExtraCoverage["fractional_time_far_from_epoch"] = probe
 }
 
